@@ -383,7 +383,7 @@ class Handler(http.server.BaseHTTPRequestHandler):
 
 def norm_prefix(prefix):
     """the repository prefix as a directory name: no trailing slashes ('' for the bucket root; a
-    leading slash stays).  This is what S3Client::new stores (s3.rs:777, Model/S3.v client_prefix);
+    leading slash stays).  This is what S3Client::new stores (s3.rs:793, Model/S3.v client_prefix);
     checks/c15.py has Coq confirm the agreement for every prefix it uses (CheckS3.stored_prefix_is)."""
     return (prefix or "").rstrip("/")
 
